@@ -16,7 +16,7 @@ def _on_alarm(*_):
     raise ImplementationTimeout()
 
 
-CALL_LIMIT = int(os.environ.get("VERIF_CALL_LIMIT", "10"))
+CALL_LIMIT = int(os.environ.get("VERIF_CALL_LIMIT", "30"))   # generous: the machine that runs the checks may be several times slower
 
 
 def exc_name(e: BaseException) -> str:
